@@ -124,6 +124,7 @@ Lemma transaction_minbal E tx c c' u :
 Proof.
   intros Hflag H. unfold transaction in H.
   apply bind_ok in H. destruct H as (c1 & u1 & H1 & H).
+  apply bind_ok in H. destruct H as (c1' & ctr & Hctr & H).
   apply bind_ok in H. destruct H as (c2 & ad & H2 & H).
   apply bind_ok in H. destruct H as (c3 & u3 & H3 & H).
   unfold m_addtx in H. inversion H. subst c'. clear H.
